@@ -113,7 +113,13 @@ func main() {
 			}
 			fmt.Fprintf(impl, "%d %s | %s\n", n, strings.ReplaceAll(v, " ", "_"), o)
 			g.stat["kind:"+op.Kind]++
-			g.stat["outcome:"+op.Kind+":"+strings.Fields(o + " .")[0]]++
+			first := strings.Fields(o + " .")[0]
+			switch first {
+			case "ok", "err", "panic", "overread", "prev-failed":
+			default:
+				first = "value"
+			}
+			g.stat["outcome:"+op.Kind+":"+first]++
 		}
 		// corpus of past failures first
 		if cf, err := os.Open(filepath.Join(os.Getenv("VERIF_ROOT"), "corpus", name+".ops")); err == nil {
